@@ -89,3 +89,49 @@ package block
 //@   loop 1 header "for _, txn := range b.Txns"
 //@   loop 1 invariant b.TxnsMap != nil && held(b.mutexTxns) == 1
 //@   loop 1 invariant forall i in 0..$idx+1 :: b.Txns[i].Hash in b.TxnsMap
+
+// ---------------------------------------------------------------- synced state changes (C28)
+// A published change set becomes the block's state only if it is for this block (hash), declares the
+// state root the block declares, carries exactly the number of nodes the block announces, merges into
+// the previous state without error, and the merged trie's root IS the root the block declares.
+// A rejected change set leaves the block's state, state hash and state status as they were.
+//   bytes_eq(a, b)   verdict of bytes.Equal on two slices (as functions of the slice values)
+//   $mptRoot[t]      root hash the trie object t reports (contracts/dep_util.vc)
+//@ uf bytes_eq (Slice Slice) Bool
+//@ assume func bytes.Equal
+//@   params a b
+//@   pure
+//@   ensures result == bytes_eq(a, b)
+//@ iface github.com/0chain/common/core/util.Node.GetHashBytes
+//@   params self
+//@   pure
+//@ iface 0chain.net/chaincore/block.Chainer.GetStateDB
+//@   params self
+//@   pure
+//@ func 0chain.net/chaincore/state.(*PartialState).GetRoot
+//@   trusted
+//@   modifies nothing
+//@ func 0chain.net/chaincore/state.(*PartialState).GetNodeDB
+//@   trusted
+//@   modifies nothing
+//@ func 0chain.net/chaincore/state.(*PartialState).GetDeadNodes
+//@   trusted
+//@   modifies nothing
+//@ func CreateStateWithPreviousBlock
+//@   trusted
+//@   modifies nothing
+//@ func CreateState
+//@   trusted
+//@   modifies nothing
+//@ func (*Block).ApplyBlockStateChange
+//@   prop C28
+//@   requires b != nil && bsc != nil && held(b.stateMutex) == 0 && rheld(b.stateMutex) == 0 && held(b.stateStatusMutex) == 0 && rheld(b.stateStatusMutex) == 0
+//@   requires b.PrevBlock != nil ==> b.PrevBlock != b && held(b.PrevBlock.stateStatusMutex) == 0 && rheld(b.PrevBlock.stateStatusMutex) == 0
+//@   at-call setClientState assert[for-this-block] b.Hash == bsc.Block
+//@   at-call setClientState assert[declares-the-blocks-state-root] bytes_eq(b.ClientStateHash, bsc.Hash)
+//@   at-call setClientState assert[announced-node-count] len(bsc.Nodes) == b.StateChangesCount
+//@   at-call setClientState assert[merged-without-error] err == nil
+//@   at-call setClientState assert[merged-root-is-the-declared-root] bytes_eq(b.ClientStateHash, $mptRoot[obj($arg1)])
+//@   ensures[rejected-leaves-the-state-untouched] result != nil ==> b.ClientState == old(b.ClientState) && b.ClientStateHash == old(b.ClientStateHash) && b.stateStatus == old(b.stateStatus)
+//@   ensures[already-applied-is-a-noop] old(b.stateStatus) >= StateSuccessful ==> result == nil && b.ClientState == old(b.ClientState) && b.stateStatus == old(b.stateStatus)
+//@   lock-balanced b.stateMutex
